@@ -15,7 +15,7 @@ import (
 	"verif/internal/model"
 )
 
-const rule = "cases: (entry point, type argument, bytes) over all 43 parser entry points of DESIGN Appendix A; bytes are model encodings of generated values (every supported key-type pair, NULL/KEY certificates with excess payload, 0..16 leases/keys/entries, offline blocks, odd mappings), 1-2 structure-aware mutations of those (length/count/type fields, truncation, insertion, deletion, appended data) or arbitrary bytes. Oracle: round trip - if the parser accepts, serialise(value) must equal input minus remainder (for ReadLeaseSet, which returns no remainder: the extent the independent model decodes, else a prefix of the input). Non-trivial: accepted and (input mutated/suffixed/arbitrary, or structure with a variable-length part); distinct by (entry, consumed bytes)."
+const rule = "cases: (entry point, type argument, bytes) over all 43 parser entry points of DESIGN Appendix A; bytes are model encodings of generated values (every supported key-type pair, NULL/KEY certificates with excess payload, 0..16 leases/keys/entries, offline blocks, odd mappings), 1-2 structure-aware mutations of those (length/count/type fields, truncation, insertion, deletion, appended data) or arbitrary bytes. Oracle: round trip - if the parser accepts, serialise(value) must equal input minus remainder, also on the second call and (a quarter of the cases) after every argument-free exported method of the value has been called once (for ReadLeaseSet, which returns no remainder: the extent the independent model decodes, else a prefix of the input). Non-trivial: accepted and (input mutated/suffixed/arbitrary, or structure with a variable-length part); distinct by (entry, consumed bytes)."
 
 func TestMain(m *testing.M) { ev.Main(m, "C01", rule) }
 
@@ -79,10 +79,45 @@ func check(c Case, r *ev.Rec) error {
 		return fmt.Errorf("%s (typ %d): serialisation differs from the consumed bytes: consumed %d bytes, serialised %d bytes, first difference at offset %d\n consumed[%d:] % x\n serial  [%d:] % x",
 			e.Name, c.Typ, len(consumed), len(res.Serial), d, d, clip(consumed[d:]), d, clip(res.Serial[min(d, len(res.Serial)):]))
 	}
+	if err := again(e, c, res, consumed, r); err != nil {
+		return err
+	}
 	variable := e.Group != "prim" && e.Group != "session" && e.Group != "lease"
 	if c.Source != "valid" || c.Mut != "" || variable {
 		r.NonTrivial(c, []byte(e.Name), consumed)
 	}
+	return nil
+}
+
+// again: the property holds for every serialisation of the value, not only the
+// first one - a second call, and (for a quarter of the cases, chosen by the input)
+// a call after every argument-free exported method of the value and of the library
+// values it returns has been invoked once. The value's own Bytes/Data method is
+// found by reflection and only used when its first answer equals the entry's.
+func again(e *lib.Entry, c Case, res lib.Result, consumed []byte, r *ev.Rec) error {
+	if res.Value == nil {
+		return nil
+	}
+	b, err, ok := lib.Serialise(res.Value)
+	if !ok || err != nil || !bytes.Equal(b, res.Serial) {
+		r.Class("second-serialisation:not-applicable")
+		return nil
+	}
+	b2, err, _ := lib.Serialise(res.Value)
+	if err != nil || !bytes.Equal(b2, consumed) {
+		return fmt.Errorf("%s (typ %d): the second serialisation of the same value differs from the consumed bytes (%d vs %d bytes, err %v, first difference at %d)", e.Name, c.Typ, len(b2), len(consumed), err, firstDiff(b2, consumed))
+	}
+	r.Class("second-serialisation")
+	if len(consumed) > 4096 || len(consumed)%4 != 1 {
+		return nil
+	}
+	sw := &lib.Sweep{MaxDepth: 1}
+	sw.Run(e.Name+"()", res.Value)
+	b3, err, _ := lib.Serialise(res.Value)
+	if err != nil || !bytes.Equal(b3, consumed) {
+		return fmt.Errorf("%s (typ %d): after %d argument-free accessor calls the value serialises differently from the bytes it was parsed from (%d vs %d bytes, err %v, first difference at %d)", e.Name, c.Typ, sw.Calls, len(b3), len(consumed), err, firstDiff(b3, consumed))
+	}
+	r.Class("serialisation-after-accessors")
 	return nil
 }
 
@@ -98,6 +133,8 @@ func TestProp(t *testing.T) {
 	for _, n := range lib.Names() { // every entry point must have accepted inputs, else its round trip was never evaluated
 		ev.R().Floor("accepted:"+n, 40)
 	}
+	ev.R().Floor("second-serialisation", 1000)
+	ev.R().Floor("serialisation-after-accessors", 200)
 	prop.Run(t)
 }
 
